@@ -72,8 +72,15 @@ def to_np(M):
 
 
 def rand_angle(rng, special=0.3):
-    if rng.random() < special:
+    r = rng.random()
+    if r < special:
         return rng.choice(SPECIAL_ANGLES)
+    if r < special + 0.12:
+        # an angle that MISSES a special one (0, a multiple of pi/2) by 1e-7 .. 1e-3: far more than any tolerance a
+        # comparison here grants, and close enough for an "is this the identity / diagonal / self-adjoint?" test with
+        # numpy's default tolerances (1e-5 relative, 1e-8 absolute) to answer yes
+        base = rng.choice([0.0, 0.0, 0.0, math.pi / 2, -math.pi / 2, math.pi, -math.pi, 2 * math.pi])
+        return base + rng.choice([-1, 1]) * rng.uniform(1, 9) * 10.0 ** rng.choice([-3, -4, -5, -6, -7])
     return rng.uniform(-2 * math.pi, 2 * math.pi)
 
 
